@@ -208,6 +208,39 @@ def _one_world(R, level, label, param, auth_pw, priv_pw, engine_id, boots, tshif
         R.mon["responses_accepted_correct"] += 1
 
 
+def reboot_scenario(R, level):
+    """get, agent reboot, get, get: after the one unavoidable notInTimeWindow report the
+    requests carry the NEW boots/time and verify again at the independent agent."""
+    db = {(1, 3, 6, 1, 2, 1, 1, 1, 0): ("str", b"x")}
+    agent_clock = env.Clock()
+    w = World(level, db, clock=agent_clock)
+    w.seam.budget = 20
+    case = {"level": level, "label": "reboot", "param": 0, "auth_pw": "hex:" + rig.AUTH_PW.hex(), "priv_pw": "hex:" + rig.PRIV_PW.hex(), "engine_id": "hex:", "boots": 1, "tshift": 0, "ops": ["get"], "pad": 0}
+    R.case(("c10", level, "reboot"), True)
+    oid = OID((1, 3, 6, 1, 2, 1, 1, 1, 0))
+    for step in ("get", "jump", "get", "reboot", "get", "get"):
+        if step == "jump":
+            # the agent's clock runs ahead of the client's notion (one re-synchronisation)
+            agent_clock.advance(1000)
+            continue
+        if step == "reboot":
+            w.agent.reboot()
+            agent_clock.advance(5)  # engine time is now LOWER than what the client holds
+            continue
+        res = rig.outcome(lambda: drive(w.client.get(oid)))
+        if res[0] != "ok":
+            R.violation(case, "request after an agent reboot failed: %r (agent verdicts %r)" % (res[1], [r.get("verdict") for r in w.agent.requests[-3:]]), None)
+            return
+    if w.agent.counters.get("not_in_window", 0) > 2:
+        R.violation(case, "agent saw %d requests outside its window for one clock jump and one reboot" % w.agent.counters["not_in_window"], None)
+        return
+    last = [r for r in w.agent.requests if r.get("verdict") == "ok"][-1]
+    if last["usm"]["boots"] != w.agent.boots:
+        R.violation(case, "after the reboot requests carry boots=%d, the engine is at %d" % (last["usm"]["boots"], w.agent.boots), None)
+        return
+    R.mon["reboot_resync_verified_by_agent"] += 1
+
+
 def run(R):
     levels4 = rig.AUTH_LEVELS
     k = 0
@@ -258,6 +291,9 @@ def run(R):
         if not R.mine(k):
             continue
         one_world(R, level, "ops", 0, ops=("get", "multiget", "getnext", "bulkget", "set", "multiset", "walk", "bulkwalk"), pad=3)
+    if R.shard == 0:
+        for level in levels4:
+            reboot_scenario(R, level)
     for kk, v in cover.items():
         R.notes["set:lengths:%s-%s" % kk] = sorted(n for n in v if 100 <= n <= 300)
 
@@ -279,6 +315,9 @@ def finalize(m, tier):
 
 def replay(R, v):
     c = v["case"]
+    if c.get("label") == "reboot":
+        reboot_scenario(R, c["level"])
+        return
     one_world(
         R, c["level"], c["label"], c["param"],
         auth_pw=bytes.fromhex(c["auth_pw"][4:]), priv_pw=bytes.fromhex(c["priv_pw"][4:]),
